@@ -54,6 +54,10 @@ class RmqShaped(kc.CommunicatorHelper):
         return handle
 
     def add_broadcast_subscriber(self, subscriber, identifier=None):
+        # (fault: the broker does not answer the request for the subscription in time -- it was not made)
+        exc, self.fail_add_broadcast = getattr(self, 'fail_add_broadcast', None), None
+        if exc is not None:
+            raise exc
         ident = super().add_broadcast_subscriber(subscriber, identifier)
         if not getattr(self, 'own_ids', False):
             return ident
